@@ -52,6 +52,10 @@ static std::string hist_json(const History& h) { std::string s = "["; for (size_
 
 struct RunOut { std::string final_key; std::string err; std::vector<size_t> pop_after_step; long divisions = 0, removals = 0; bool threw = false; std::string what; };
 
+// monitor mode (set by the C10 driver): an invariant violation does not end the history, so that the sanitizers see what the code goes on to do with the broken reference
+static const bool g_monitor = getenv("VERIF_MONITOR") != nullptr;
+// ... except at a recorded known finding of this property (keys handed over by the driver): there the history ends as usual, the defect is already on file
+static bool stop_here(const std::string& e, int kind) { if (!g_monitor) return true; static std::set<std::string> known = [] { std::set<std::string> k; const char* v = getenv("VERIF_KNOWN_KEYS"); if (v) { std::istringstream i(v); std::string l; while (std::getline(i, l)) if (!l.empty()) k.insert(l); } return k; }(); return known.count(clause_of(e) + "|setup=" + std::to_string(kind)) > 0; }
 static RunOut run_history(const Setup& su, const History& h, long* phases = nullptr) {
     RunOut out; std::vector<sw::CellSpec> cs;
     sc::Mesh ico = sc::icosphere(1);
@@ -61,7 +65,7 @@ static RunOut run_history(const Setup& su, const History& h, long* phases = null
     Tracker T; g_tr = &T;
     try {
         sw::World W(cs, p);
-        sw::phase_cb() = [&](solver* s, const char* ph) { T.phases++; std::string e = check_population(s, ph); if (!e.empty()) throw harness_abort(e); };
+        sw::phase_cb() = [&](solver* s, const char* ph) { T.phases++; std::string e = check_population(s, ph); if (!e.empty() && stop_here(e, su.kind)) throw harness_abort(e); };
         for (size_t step = 0; step < h.size() && out.err.empty(); step++) {
             auto& L = W.cells(); std::set<unsigned> expect_gone, expect_divide;
             for (size_t i = 0; i < L.size() && i < h[step].size(); i++) { cell& c = *L[i];
@@ -69,7 +73,7 @@ static RunOut run_history(const Setup& su, const History& h, long* phases = null
                 else c.division_volume_ = std::numeric_limits<double>::infinity();
                 if (h[step][i] == VANISH && !c.is_static() /* static cells are not subject to internal forces: their volume is never re-evaluated */) { double v = c.compute_volume(); c.cell_type_ = std::make_shared<cell_type_parameters>(*c.cell_type_); c.cell_type_->min_vol_ = 0.6 * v; sw::scale_cell(c, 0.8); expect_gone.insert(c.get_id()); } }
             size_t before = L.size();
-            for (int it = 0; it < 5 && !W.cells().empty() /* solver::run stops on an empty population */; it++) { W.s->run_iteration(); std::string e = check_population(W.s.get(), "after_iteration"); if (!e.empty()) { out.err = e; break; } }
+            for (int it = 0; it < 5 && !W.cells().empty() /* solver::run stops on an empty population */; it++) { W.s->run_iteration(); std::string e = check_population(W.s.get(), "after_iteration"); if (!e.empty() && stop_here(e, su.kind)) { out.err = e; break; } }
             if (!out.err.empty()) break;
             // removed ids never reappear; removed cells are exactly those below their minimum volume (C04 checks the law; here: identity)
             for (auto& c : W.cells()) if (expect_gone.count(c->get_id())) { out.err = "cell-below-minimum-volume-still-in-population: id " + std::to_string(c->get_id()); break; }
